@@ -524,3 +524,124 @@ fn r3_col_client() {
     }
     kani::cover!(true, "reach");
 }
+
+// ---------------------------------------------------------------------------------------------
+// R5 (encoder half, v1 and v2 at once): `Item::encode` makes exactly the encoder calls the block
+// format prescribes (reference model shared with C13/S1), for every shape, every content kind,
+// all ids and clocks. Through the recording `Encoder` (see c13_model.rs).
+// ---------------------------------------------------------------------------------------------
+use crate::c13::{any_ids, build_item_k};
+use crate::c13_model::{assert_same_events, model_encode_slice, ContentModel, Recorder, SHAPES};
+
+macro_rules! r5_item_encode {
+    ($name:ident, $shape:expr, $len:expr, $ref:expr, |$a:ident, $b:ident, $c:ident| $mk:expr, $model:expr) => {
+        #[kani::proof]
+        #[kani::unwind(14)]
+        #[kani::stub(std::hash::RandomState::new, random_state_new)]
+        #[kani::stub(std::intrinsics::catch_unwind, catch_unwind_stub)]
+        fn $name() {
+            let shape = SHAPES[$shape];
+            let len: u32 = $len;
+            let ids = any_ids(len);
+            let $a: i64 = kani::any();
+            let $b: bool = kani::any();
+            let $c: u8 = kani::any();
+            let whole = build_item_k(shape, &ids, $mk);
+            assert!(whole.len() == len);
+            let mut real = Recorder::new();
+            whole.encode(&mut real);
+            let mut model = Recorder::new();
+            model_encode_slice(&mut model, shape, &ids, $ref, &$model, 0, len - 1);
+            assert_same_events(&real, &model);
+            kani::cover!(real.n >= 3, "several encoder calls");
+            kani::cover!(true, "reach");
+            std::mem::forget(whole);
+        }
+    };
+}
+r5_item_encode!(r5_encode_deleted_sh0, 0, 5, 1, |a, b, c| ItemContent::Deleted(5), ContentModel::Deleted(5));
+r5_item_encode!(r5_encode_deleted_sh1, 1, 5, 1, |a, b, c| ItemContent::Deleted(5), ContentModel::Deleted(5));
+r5_item_encode!(r5_encode_deleted_sh2, 2, 5, 1, |a, b, c| ItemContent::Deleted(5), ContentModel::Deleted(5));
+r5_item_encode!(r5_encode_deleted_sh3, 3, 5, 1, |a, b, c| ItemContent::Deleted(5), ContentModel::Deleted(5));
+r5_item_encode!(r5_encode_deleted_sh4, 4, 5, 1, |a, b, c| ItemContent::Deleted(5), ContentModel::Deleted(5));
+r5_item_encode!(r5_encode_deleted_sh5, 5, 5, 1, |a, b, c| ItemContent::Deleted(5), ContentModel::Deleted(5));
+r5_item_encode!(r5_encode_deleted_sh6, 6, 5, 1, |a, b, c| ItemContent::Deleted(5), ContentModel::Deleted(5));
+r5_item_encode!(r5_encode_deleted_sh7, 7, 5, 1, |a, b, c| ItemContent::Deleted(5), ContentModel::Deleted(5));
+r5_item_encode!(r5_encode_string_sh5, 5, 3, 4, |a, b, c| ItemContent::String("a\u{e9}\u{20ac}".into()),
+    ContentModel::Str("a\u{e9}\u{20ac}"));
+r5_item_encode!(r5_encode_any_sh2, 2, 2, 8, |a, b, c| {
+    let mut v = Vec::with_capacity(4);
+    v.push(Any::BigInt(a));
+    v.push(Any::Bool(b));
+    ItemContent::Any(v)
+}, ContentModel::AnyScalars(&[Any::BigInt(a), Any::Bool(b)]));
+r5_item_encode!(r5_encode_json_sh3, 3, 2, 2, |a, b, c| {
+    let mut v = Vec::with_capacity(4);
+    v.push(String::from("1"));
+    v.push(String::from("[2]"));
+    ItemContent::JSON(v)
+}, ContentModel::Json(&["1", "[2]"]));
+r5_item_encode!(r5_encode_binary_sh4, 4, 1, 3, |a, b, c| {
+    let mut v = Vec::with_capacity(4);
+    v.push(c);
+    v.push(7u8);
+    ItemContent::Binary(v)
+}, ContentModel::Binary(&[c, 7u8]));
+r5_item_encode!(r5_encode_embed_sh6, 6, 1, 5, |a, b, c| ItemContent::Embed(Any::BigInt(a)),
+    ContentModel::Embed(&Any::BigInt(a)));
+r5_item_encode!(r5_encode_format_sh1, 1, 1, 6, |a, b, c| ItemContent::Format(Arc::from("b"), Box::new(Any::Bool(b))),
+    ContentModel::Format("b", &Any::Bool(b)));
+r5_item_encode!(r5_encode_type_array_sh0, 0, 1, 7, |a, b, c| ItemContent::Type(yrs::branch::Branch::new(yrs::types::TypeRef::Array)),
+    ContentModel::Type(0, None));
+r5_item_encode!(r5_encode_type_xml_sh7, 7, 1, 7, |a, b, c| ItemContent::Type(yrs::branch::Branch::new(yrs::types::TypeRef::XmlElement(Arc::from("p")))),
+    ContentModel::Type(3, Some("p")));
+
+
+/// The same for the path `encode_state_as_update` / `encode_diff` take for every block of the
+/// store: `Block::as_slice()` + `BlockSlice::encode` (untrimmed `ItemSlice::encode` ->
+/// `ItemContent::encode_slice(0, len - 1)`).
+macro_rules! r5_slice_encode {
+    ($name:ident, $shape:expr, $len:expr, $ref:expr, |$a:ident, $b:ident| $mk:expr, $model:expr) => {
+        #[kani::proof]
+        #[kani::unwind(14)]
+        #[kani::stub(std::hash::RandomState::new, random_state_new)]
+        #[kani::stub(std::intrinsics::catch_unwind, catch_unwind_stub)]
+        fn $name() {
+            let shape = SHAPES[$shape];
+            let len: u32 = $len;
+            let ids = any_ids(len);
+            let $a: i64 = kani::any();
+            let $b: bool = kani::any();
+            let whole = build_item_k(shape, &ids, $mk);
+            let mut real = Recorder::new();
+            whole.encode_trimmed(0, 0, &mut real);
+            let mut model = Recorder::new();
+            model_encode_slice(&mut model, shape, &ids, $ref, &$model, 0, len - 1);
+            assert_same_events(&real, &model);
+            kani::cover!(true, "reach");
+            std::mem::forget(whole);
+        }
+    };
+}
+r5_slice_encode!(r5_slice_deleted_sh3, 3, 5, 1, |a, b| ItemContent::Deleted(5), ContentModel::Deleted(5));
+r5_slice_encode!(r5_slice_string_sh0, 0, 3, 4, |a, b| ItemContent::String("a\u{1d11e}".into()),
+    ContentModel::Str("a\u{1d11e}"));
+r5_slice_encode!(r5_slice_any_sh5, 5, 3, 8, |a, b| {
+    let mut v = Vec::with_capacity(4);
+    v.push(Any::BigInt(a));
+    v.push(Any::Bool(b));
+    v.push(Any::Null);
+    ItemContent::Any(v)
+}, ContentModel::AnyScalars(&[Any::BigInt(a), Any::Bool(b), Any::Null]));
+r5_slice_encode!(r5_slice_json_sh2, 2, 3, 2, |a, b| {
+    let mut v = Vec::with_capacity(4);
+    v.push(String::from("1"));
+    v.push(String::from("[2]"));
+    v.push(String::from("3"));
+    ItemContent::JSON(v)
+}, ContentModel::Json(&["1", "[2]", "3"]));
+r5_slice_encode!(r5_slice_binary_sh4, 4, 1, 3, |a, b| {
+    let mut v = Vec::with_capacity(4);
+    v.push(9u8);
+    ItemContent::Binary(v)
+}, ContentModel::Binary(&[9u8]));
